@@ -22,20 +22,21 @@ const (
 )
 
 type c10Case struct {
-	L       int64
-	Path    string // polling | jsonp | ws | wt
-	Rev     int
-	Size    int64  // body / message-frame payload size to present
-	SizeCls string // L-1 | L | L+1 | 2L | >>L
-	Decl    string // polling: exact | unknown | lying-small | lying-big
-	Multi   int    // number of packets in a polling payload
-	Layout  string // ws: single | fragments | header-only-64bit ; wt: min | form16 | form64 | header-only-64bit
-	Frag    int    // ws fragments: size of each fragment (<= L)
-	B64     bool
+	L        int64
+	Path     string // polling | jsonp | ws | wt
+	Rev      int
+	Size     int64  // body / message-frame payload size to present
+	SizeCls  string // L-1 | L | L+1 | 2L | >>L
+	Decl     string // polling: exact | unknown | lying-small | lying-big
+	Multi    int    // number of packets in a polling payload
+	Layout   string // ws: single | fragments | header-only-64bit ; wt: min | form16 | form64 | header-only-64bit
+	Frag     int    // ws fragments: size of each fragment (<= L)
+	B64      bool
+	Upgraded bool
 }
 
 func (c c10Case) String() string {
-	return fmt.Sprintf("{L=%d %s rev%d size=%d(%s) decl=%s packets=%d layout=%s frag=%d b64=%v}", c.L, c.Path, c.Rev, c.Size, c.SizeCls, c.Decl, c.Multi, c.Layout, c.Frag, c.B64)
+	return fmt.Sprintf("{L=%d %s rev%d size=%d(%s) decl=%s packets=%d layout=%s frag=%d b64=%v upgraded=%v}", c.L, c.Path, c.Rev, c.Size, c.SizeCls, c.Decl, c.Multi, c.Layout, c.Frag, c.B64, c.Upgraded)
 }
 
 func genC10(rt *rapid.T, known bool, col *Collector) c10Case {
@@ -45,6 +46,8 @@ func genC10(rt *rapid.T, known bool, col *Collector) c10Case {
 		rapid.Int64Range(1, 200_000),
 	).Draw(rt, "L")
 	c.Path = rapid.SampledFrom([]string{"polling", "polling", "jsonp", "ws", "ws", "wt", "wt"}).Draw(rt, "path")
+	// websocket/webtransport reached through an upgrade of a polling session instead of a direct handshake
+	c.Upgraded = (c.Path == "ws" || c.Path == "wt") && c.L >= 64 && rapid.IntRange(0, 2).Draw(rt, "upgraded") == 0
 	c.Rev = 4
 	if (c.Path == "polling" || c.Path == "ws") && rapid.IntRange(0, 2).Draw(rt, "rev3") == 0 {
 		c.Rev = 3
@@ -247,9 +250,24 @@ func runC10(c c10Case) (fail string, stats map[string]bool) {
 			}
 		}
 	case "ws":
-		s, why := doHandshake(w, c06HS{Carrier: "websocket", EIO: eio})
-		if s == nil {
-			return "harness: handshake: " + why, stats
+		var s *c06Sess
+		if c.Upgraded {
+			ps, why := doHandshake(w, c06HS{Carrier: "polling", EIO: eio})
+			if ps == nil {
+				return "harness: handshake: " + why, stats
+			}
+			wc, _, err := Upgrade(w, ps.pc, "websocket")
+			if err != nil {
+				return "harness: upgrade: " + err.Error(), stats
+			}
+			s = &c06Sess{wc: wc}
+			stats["after-upgrade"] = true
+		} else {
+			var why string
+			s, why = doHandshake(w, c06HS{Carrier: "websocket", EIO: eio})
+			if s == nil {
+				return "harness: handshake: " + why, stats
+			}
 		}
 		sr := w.Get(s.wc.Sid)
 		srvRead := func() int64 { return s.wc.conn().w.ReadCount() }
@@ -312,9 +330,24 @@ func runC10(c c10Case) (fail string, stats map[string]bool) {
 			return fmt.Sprintf("server consumed %d bytes of the websocket stream for one message, limit %d (+%d frame headers +%d allowed)", got, c.L, overhead, c10Slack), stats
 		}
 	case "wt":
-		s, why := doHandshake(w, c06HS{Carrier: "webtransport", EIO: "4"})
-		if s == nil {
-			return "harness: handshake: " + why, stats
+		var s *c06Sess
+		if c.Upgraded {
+			ps, why := doHandshake(w, c06HS{Carrier: "polling", EIO: "4"})
+			if ps == nil {
+				return "harness: handshake: " + why, stats
+			}
+			_, tc, err := Upgrade(w, ps.pc, "webtransport")
+			if err != nil {
+				return "harness: upgrade: " + err.Error(), stats
+			}
+			s = &c06Sess{tc: tc}
+			stats["after-upgrade"] = true
+		} else {
+			var why string
+			s, why = doHandshake(w, c06HS{Carrier: "webtransport", EIO: "4"})
+			if s == nil {
+				return "harness: handshake: " + why, stats
+			}
 		}
 		sr := w.Get(s.tc.Sid)
 		before := s.tc.Bidi.in.ReadCount()
@@ -400,7 +433,7 @@ func TestC10MaxPayload(t *testing.T) {
 			rt.Fatalf("%v: %s", c, clipStr(res.Leak, 1500))
 		}
 	})
-	col.RequireClasses(t, "413", "delivered", "connection-terminated", "header-only", "fragmented", "within-1-of-limit", "path.polling", "path.jsonp", "path.ws", "path.wt", "decl.lying-big", "decl.lying-small")
+	col.RequireClasses(t, "413", "delivered", "connection-terminated", "header-only", "fragmented", "within-1-of-limit", "path.polling", "path.jsonp", "path.ws", "path.wt", "decl.lying-big", "decl.lying-small", "after-upgrade")
 }
 
 func TestC10ChunkedFinding(t *testing.T) {
